@@ -250,6 +250,13 @@ TForgeHistory ==
      /\ acc => Ev.out = Ev.claims
   /\ Same
 
+(* directory bootstrap (Directory::new / ReadOnlyDirectory::new): the read-only wrapper refuses storage *)
+(* without an epoch record; a directory creates it at epoch 0; opening again changes nothing            *)
+TBootstrap ==
+  /\ IsEv("bootstrap")
+  /\ ~Ev.readonly_on_empty /\ Ev.epoch_after_new = 0 /\ Ev.readonly_after_new /\ Ev.reopen_same_root
+  /\ Same
+
 (* C19: the protobuf wire path is the identity on proofs and on verification results *)
 TWire ==
   /\ IsEv("wire")
@@ -265,7 +272,7 @@ TReopen ==
 TNext ==
   \/ TReset \/ TPublish \/ TTombstone \/ TEpochHash \/ TLookup \/ TBatchLookup
   \/ THistory \/ TAudit \/ TAuditTamper \/ TWire \/ TReopen \/ TCrash
-  \/ TForgeLookup \/ TForgeHistory \/ TDTree \/ TForgeMix \/ TForgeStale
+  \/ TBootstrap \/ TForgeLookup \/ TForgeHistory \/ TDTree \/ TForgeMix \/ TForgeStale
   \/ TPublishFault \/ TSave \/ TRestore \/ TRAnswer \/ TCPublish \/ TFinalLeaves \/ TNotify
 
 TSpec == TInit /\ [][TNext]_tvars
